@@ -8,3 +8,89 @@ package providers
 //@ iface Provider.Authorize
 //@ prop C01 C08
 //@ nomod
+
+//@ stable OIDCProvider.* ProviderData.Verifier ProviderData.AllowedGroups ProviderData.EmailClaim ProviderData.UserClaim
+//@ stable ProviderData.GroupsClaim ProviderData.AllowUnverifiedEmail ProviderData.ProfileURL ProviderData.SkipClaimsFromProfileURL
+//@ stable ProviderData.CodeChallengeMethod ProviderData.LoginURL ProviderData.RedeemURL ProviderData.ClientID
+//@ nonnil OIDCProvider.ProviderData
+
+// ------------------------------------------------------------------ C08: group authorisation
+//@ func (*ProviderData).Authorize
+//@ safety
+//@ nomod
+//@ prop C08 C01
+//@ loop 0 invariant[no-earlier-group-allowed] rangeindex >= -1 && forall j int :: 0 <= j && j <= rangeindex ==> !inmap(p.AllowedGroups, s.Groups[j])
+//@ ensures[never-errors] ret1 == nil
+//@ ensures[groups-must-intersect-when-configured] ret0 <==> len(p.AllowedGroups) == 0
+//@     || exists k int :: 0 <= k && k < len(s.Groups) && inmap(p.AllowedGroups, s.Groups[k])
+
+// ------------------------------------------------------------------ C04 / C14: sessions only from verified ID tokens
+//@ func (*ProviderData).verifyIDToken
+//@ prop C04 C14
+//@ ensures[verified-by-configured-verifier] ret1 == nil ==> called(Verify) && ret1(Verify) == nil && ret0 == ret0(Verify)
+//@     && recv(Verify) == p.Verifier && arg(Verify, 1) == ret(getIDToken) && arg(getIDToken, 0) == token
+//@ ensures[missing-token] strings.TrimSpace(ret(getIDToken)) == "" ==> ret1 == ErrMissingIDToken && !called(Verify)
+//@ ensures[error-means-no-token] ret1 != nil ==> ret0 == nil || called(Verify)
+
+//@ func (*OIDCProvider).createSession
+//@ prop C04 C14
+//@ at call buildSessionFromClaims assert[claims-only-from-verified-token-or-tokenless-refresh] ret1(verifyIDToken) == nil
+//@     || (refresh && ret1(verifyIDToken) == ErrMissingIDToken)
+//@ at call buildSessionFromClaims assert[claims-from-this-tokens-id-token] arg(buildSessionFromClaims, 1) == ret(getIDToken)
+//@     && arg(getIDToken, 0) == token && arg(verifyIDToken, 2) == token
+//@ ensures[session-only-via-claims] ret0 != nil ==> called(buildSessionFromClaims) && ret1(buildSessionFromClaims) == nil
+//@     && ret0 == ret0(buildSessionFromClaims) && ret1 == nil
+//@ ensures[error-means-no-session] ret1 != nil ==> ret0 == nil
+
+//@ func (*OIDCProvider).CreateSessionFromToken
+//@ prop C04 C01
+//@ at call buildSessionFromClaims assert[bearer-token-verified-first] ret1(Verify) == nil && recv(Verify) == p.Verifier
+//@     && arg(Verify, 1) == token && arg(buildSessionFromClaims, 1) == token
+//@ ensures[session-only-via-claims] ret0 != nil ==> called(buildSessionFromClaims) && ret1(buildSessionFromClaims) == nil
+//@     && ret0 == ret0(buildSessionFromClaims)
+//@ ensures[error-means-no-session] ret1 != nil ==> ret0 == nil
+
+//@ func (*ProviderData).CreateSessionFromToken
+//@ prop C04 C01
+//@ ensures[only-through-verifier] ret0 != nil ==> p.Verifier != nil && called(CreateTokenToSessionFunc)
+
+//@ func (*OIDCProvider).redeemRefreshToken
+//@ prop C04 C14
+//@ ensures[failure-assigns-nothing-to-the-session] ret0 != nil ==> !stored("SessionState.IDToken") && !stored("SessionState.Email")
+//@     && !stored("SessionState.User") && !stored("SessionState.Groups") && !stored("SessionState.AccessToken")
+//@     && !stored("SessionState.RefreshToken") && !stored("SessionState.CreatedAt") && !stored("SessionState.ExpiresOn")
+//@ ensures[identity-fields-only-with-a-new-id-token] stored("SessionState.Email") || stored("SessionState.User") || stored("SessionState.Groups")
+//@     ==> stored("SessionState.IDToken") && ret1(createSession) == nil
+//@ ensures[identity-only-from-a-verified-token] ret0 == nil ==> called(createSession) && ret1(createSession) == nil
+//@     && arg(createSession, 3)
+
+//@ func (*OIDCProvider).RefreshSession
+//@ prop C14 C12
+//@ ensures[refreshed-only-on-success] ret0 ==> ret1 == nil && called(redeemRefreshToken) && ret(redeemRefreshToken) == nil
+//@ ensures[error-not-refreshed] ret1 != nil ==> !ret0
+
+//@ func (*ProviderData).buildSessionFromClaims
+//@ prop C04 C14
+//@ ensures[unverified-email-refused] ret1 == nil && rawIDToken != "" && p.EmailClaim == "email" && !p.AllowUnverifiedEmail ==>
+//@     called(GetClaimInto#1) && ret1(GetClaimInto#1) == nil && arg(GetClaimInto#1, 0) == "email_verified"
+//@ ensures[claim-error-means-no-session] ret1 != nil ==> ret0 == nil
+//@ ensures[extractor-error-propagates] called(getClaimExtractor) && ret1(getClaimExtractor) != nil ==> ret1 != nil && ret0 == nil
+
+// ------------------------------------------------------------------ C05: nonce binding
+//@ func (*OIDCProvider).ValidateSession
+//@ prop C05 C14 C04
+//@ at call Verify assert[verifies-the-sessions-id-token] recv(Verify) == p.Verifier && arg(Verify, 1) == s.IDToken
+//@ ensures[valid-only-if-token-verifies-and-nonce-matches] result ==> ret1(Verify) == nil
+//@     && (p.SkipNonce || (called(checkNonce) && ret(checkNonce) == nil && arg(checkNonce, 1) == s))
+
+//@ func (*ProviderData).checkNonce
+//@ prop C05
+//@ ensures[nonce-claim-must-hash-match-session-nonce] ret0 == nil ==> called(CheckNonce) && ret(CheckNonce) && arg(CheckNonce, 0) == s
+//@     && ret1(GetClaimInto) == nil && arg(GetClaimInto, 0) == "nonce" && ret1(getClaimExtractor) == nil
+//@ at call getClaimExtractor assert[claims-of-the-sessions-id-token] arg(getClaimExtractor, 1) == s.IDToken
+
+//@ func (*OIDCProvider).GetLoginURL
+//@ prop C05 C06
+//@ at call Add assert[nonce-param-unless-disabled] !p.SkipNonce && arg(Add, 1) == "nonce" && arg(Add, 2) == nonce
+//@ ensures[nonce-sent-unless-disabled] !p.SkipNonce ==> called(Add)
+//@ ensures[login-url-from-configured-endpoint] result == ret(String) && arg(makeLoginURL, 1) == redirectURI && arg(makeLoginURL, 2) == state
